@@ -91,7 +91,10 @@ func VerifC08ConvertStep() {
 	}
 	amount := verifAmount("amount", 100)
 	toCoin := rt.Bool("erc20ToCoin")
-	selfReceive := rt.Bool("receiverIsSender")
+	recvKind := rt.Choose("receiver", 3) // the other user, the sender itself, the erc20 module's own (blocked) account
+	selfReceive := recvKind == 1
+	toModule := recvKind == 2
+	e.bank.Blocked = append(e.bank.Blocked, module) // module accounts are on the bank's blocked list
 	rt.Cover("state-built")
 
 	var err error
@@ -99,12 +102,16 @@ func VerifC08ConvertStep() {
 		recv := verifUserB
 		if selfReceive {
 			recv = verifUserA
+		} else if toModule {
+			recv = module
 		}
 		_, err = e.k.ConvertERC20(e.ctx, &types.MsgConvertERC20{ContractAddress: verifContract.Hex(), Amount: amount, Receiver: recv.String(), Sender: aHex.Hex()})
 	} else {
 		recv := bHex
 		if selfReceive {
 			recv = aHex
+		} else if toModule {
+			recv = moduleHex
 		}
 		_, err = e.k.ConvertCoin(e.ctx, &types.MsgConvertCoin{Coin: sdk.NewCoin(denom, amount), Receiver: recv.Hex(), Sender: verifUserA.String()})
 	}
@@ -116,7 +123,9 @@ func VerifC08ConvertStep() {
 	cA, cB := e.bank.Balance(verifUserA, denom), e.bank.Balance(verifUserB, denom)
 	tA := sdkmath.NewIntFromBigInt(e.tok.BalanceOf(verifContract, aHex))
 	tB := sdkmath.NewIntFromBigInt(e.tok.BalanceOf(verifContract, bHex))
-	if toCoin {
+	if toModule {
+		// the receiver is the escrow account itself: only the books are judged below
+	} else if toCoin {
 		rt.Assert(tA.Equal(tokA.Sub(amount)), "sender's tokens decrease by exactly the amount")
 		if selfReceive {
 			rt.Assert(cA.Equal(coinA.Add(amount)), "receiver's coins increase by exactly the amount")
